@@ -8,5 +8,6 @@ CONSTANTS
   RootOps = FALSE
   MaxTreeDepth = 2
   MaxNodes = 6
+  FlagSets = "all"
 INVARIANTS TypeOK InvWF ModelProps
 CHECK_DEADLOCK FALSE
